@@ -107,6 +107,11 @@ func linEval(v ssa.Value, env layEnv, depth int) linExpr {
 	if depth > 12 {
 		return linExpr{}
 	}
+	if env != nil {
+		if _, isPrm := core.Strip(v).(*ssa.Parameter); isPrm {
+			v = env.subst(v)
+		}
+	}
 	if c, ok := core.ConstInt(v); ok {
 		return linConst(c)
 	}
@@ -199,12 +204,24 @@ func layoutCheck(p *core.Prog, fn *ssa.Function) (ok bool, desc string, segs []s
 // handed the buffer (or a tail of it) are collected too, with the helper's
 // parameters bound to the arguments.
 func layoutCheckBuf(p *core.Prog, fn *ssa.Function, buf *ssa.MakeSlice) (ok bool, desc string, segs []segment, total linExpr) {
+	return layoutCheckBufIn(p, fn, buf, nil)
+}
+
+// layoutCheckBufIn: with a call site `via` of fn given, the buffer is one that
+// fn makes, fills in part and returns: its length is evaluated with fn's
+// parameters bound to the call's arguments, and the writes the caller makes
+// into the returned value are part of the layout.
+func layoutCheckBufIn(p *core.Prog, fn *ssa.Function, buf *ssa.MakeSlice, via ssa.CallInstruction) (ok bool, desc string, segs []segment, total linExpr) {
 	// a buffer made with length 0 and built by appends cannot have gaps: its layout is the
 	// sequence of appended pieces
 	if k, isC := core.ConstInt(buf.Len); isC && k == 0 {
 		return appendLayout(p, fn, buf)
 	}
-	total = linEval(buf.Len, nil, 0)
+	env0 := layEnv{}
+	if via != nil {
+		env0 = bindEnv(layEnv{}, via)
+	}
+	total = linEval(buf.Len, env0, 0)
 	if !total.ok {
 		return false, "buffer length is not linear in input lengths", nil, total
 	}
@@ -283,7 +300,35 @@ func layoutCheckBuf(p *core.Prog, fn *ssa.Function, buf *ssa.MakeSlice) (ok bool
 			}
 		}
 	}
-	collect(fn, buf, linConst(0), layEnv{}, 0)
+	collect(fn, buf, linConst(0), env0, 0)
+	if via != nil && via.Value() != nil {
+		// the returned buffer in the caller: the call's value or the component that carries the buffer
+		idx := -1
+		for _, ret := range core.Returns(fn) {
+			for j, rv := range ret.Results {
+				for _, src := range phiSources(rv) {
+					if src.V == ssa.Value(buf) {
+						idx = j
+					}
+				}
+			}
+		}
+		var ret ssa.Value
+		if idx >= 0 {
+			if fn.Signature.Results().Len() == 1 {
+				ret = via.Value()
+			} else if via.Value().Referrers() != nil {
+				for _, rf := range *via.Value().Referrers() {
+					if ex, ok := rf.(*ssa.Extract); ok && ex.Index == idx {
+						ret = ex
+					}
+				}
+			}
+		}
+		if ret != nil {
+			collect(via.Parent(), ret, linConst(0), layEnv{}, 0)
+		}
+	}
 	if len(segs) == 0 {
 		return false, "no writes into the buffer", segs, total
 	}
